@@ -113,4 +113,6 @@ pub fn run(out: &mut Out, tier: &str, seed: u64) {
             }
         }
     }
+    { let mut rng2 = Rng::new(seed, "c12-extra"); crate::objapi::conversions(out, &mut rng2); }
+    crate::consts::check(out, &["CRYPTO_KDF"]);
 }
